@@ -194,7 +194,8 @@ def check(facts):
 
 NARROW_TEXT = ("at every call of indexing::ElementType::try_from in the executors, the None outcome (pattern character not "
                "representable in the input's element type) may reach a failure return (None / `?`) of an Option-returning function only "
-               "through a branch on an integer parameter (the minimum iteration count); straight-line propagation of the None "
+               "through a branch on an integer parameter (the minimum iteration count), and, in a function that is handed the minimum count, a success return (`Some(..)`: zero "
+               "iterations matched) likewise only through such a branch; straight-line propagation of the None "
                "(`?`, `None => return None`) is the violation; a None that only feeds a data-dependent local decision is 'this character "
                "does not match'")
 
@@ -204,6 +205,7 @@ EXEC_RX = re.compile(r"^(classicalbacktrack|pikevm|scm|matchers|cursor)::")
 def check_narrow(facts):
     r = RuleResult("NARROW", NARROW_TEXT)
     n = 0
+    nmin = 0
     for fn in facts.body_names():
         if not EXEC_RX.match(fn):
             continue
@@ -224,7 +226,18 @@ def check_narrow(facts):
                 r.ok(key, "None handled locally (function returns %s)" % ret_ty)
                 continue
             bad = unguarded_failure_path(body, start_blocks)
-            if bad is None:
+            # the success clause applies where the function is handed the minimum count (a `*min*` integer parameter): without one
+            # (with_scm_compute_max runs after the minimum has been matched) "no further iterations" is an unconditional answer
+            has_min = any("min" in (body.local_name(l) or "") and re.match(r"^(u|i)(8|16|32|64|size)$", body.local_ty(l))
+                          for l in range(1, body.argc + 1))
+            nmin += 1 if has_min else 0
+            good = unguarded_failure_path(body, start_blocks, want="ok") if has_min else None
+            if bad is None and good is not None:
+                r.fail(key, "an unencodable pattern character is answered with an unconditional success (line %s): the None edge reaches a "
+                            "`Some(..)` return with no test on the minimum count, so a loop that needs at least one iteration of a character "
+                            "that cannot occur in this input 'matches' with zero iterations (ASCII and UTF-8 entry points disagree)" % good,
+                       facts.loc(fn, t["line"]))
+            elif bad is None:
                 r.ok(key, "every failing path from the None edge branches on an integer parameter first")
                 r.sample({"key": key, "line": t["line"], "verdict": "ok"})
             else:
@@ -232,6 +245,7 @@ def check_narrow(facts):
                             "a failure return (line %s) with no test on the minimum count — siblings (the Insn::Char arms) treat it "
                             "as 'no match'" % bad, facts.loc(fn, t["line"]))
     r.floor("try_from_sites", n, 3)
+    r.floor("try_from_sites_in_functions_given_the_minimum_count", nmin, 1)
     return r
 
 
@@ -315,9 +329,9 @@ def branches_on_int_param(body, bb):
     return False
 
 
-def unguarded_failure_path(body, starts):
-    """Search for a path from the start blocks to a failure return that does not pass a branch on an
-    integer parameter. Returns the line of the failing return, or None."""
+def unguarded_failure_path(body, starts, want="fail"):
+    """Search for a path from the start blocks to a failure (want="fail") / success (want="ok") return that does not pass a
+    branch on an integer parameter. Returns the line of that return value, or None."""
     succ = body.succ()
     seen = set()
     stack = [(b, None) for b in starts]
@@ -341,7 +355,7 @@ def unguarded_failure_path(body, starts):
             else:
                 rk = ("ok", t.get("line"))
         if t["k"] == "return":
-            if rk and rk[0] == "fail":
+            if rk and rk[0] == want:
                 return rk[1]
             continue
         if branches_on_int_param(body, b):
